@@ -105,11 +105,12 @@ def cached_compile(workdir, files, codec, ne, adb, cache):
 
 class C17Machine(RuleBasedStateMachine):
     REC = None
+    BASE = None
 
     def __init__(self):
         super().__init__()
         machine_tick(self)
-        base = os.environ.get('TMPDIR', '/tmp')
+        base = self.BASE or os.environ.get('TMPDIR', '/tmp')
         self.dir = tempfile.mkdtemp(prefix='asn1v-c17-', dir=base)
         self.cache = os.path.join(self.dir, 'cache')
         self.files = {}
@@ -287,8 +288,14 @@ class C17(Check):
     def run_shard(self, shard, tier, seed, rec):
         scale = float(os.environ.get('ASN1V_SCALE', '1'))
         n = max(1, int((6 if tier == "quick" else 300) * scale))
-        machine_run(C17Machine, seed, n, 12 if tier == 'quick' else 25, rec,
-                    shrink=shard.get('_shrink', False), timeout=shard.get('_timeout'))
+        # one scratch directory per shard, removed whatever happens to the individual machines
+        C17Machine.BASE = tempfile.mkdtemp(prefix='asn1v-c17s-', dir=os.environ.get('TMPDIR', '/tmp'))
+        try:
+            machine_run(C17Machine, seed, n, 12 if tier == 'quick' else 25, rec,
+                        shrink=shard.get('_shrink', False), timeout=shard.get('_timeout'))
+        finally:
+            shutil.rmtree(C17Machine.BASE, ignore_errors=True)
+            C17Machine.BASE = None
 
     def replay(self, case, rec):
         base = tempfile.mkdtemp(prefix='asn1v-c17r-', dir=os.environ.get('TMPDIR', '/tmp'))
